@@ -170,4 +170,42 @@ theorem add_enum_different_variants (op : α → α → α) (d : α) (vs : List 
   have hlen : vs.length > 1 := by omega
   simp [hlen, evalEnum]
 
+/-! ### `Not` / `Neg` on enums -/
+
+/-- Inside a variant with fields `Not` / `Neg` map every field and keep the variant; the result is
+the enum itself when the enum has no unit variant, `Ok(enum)` when it has one. -/
+theorem not_enum_maps_fields (u : α → α) (d : α) (vs : List VKind) (v n : Nat)
+    (hv : vs[v]? = some (.fields n)) (l : List α) (hl : l.length = n) :
+    evalNot u d (notArms vs) (v, l)
+      = some (if notHasUnit vs then .ok (v, l.map u) else .plain (v, l.map u)) := by
+  have ha : (notArms vs)[v]? = some (.map n (notHasUnit vs)) := by
+    simp [notArms, List.getElem?_map, hv]
+  have hm := unary_struct (fun x _ => x) (fun x (_ : Unit) => x) u (fun _ => d) () d n l l hl
+  simp only [evalNot, ha]
+  rw [hm]
+
+/-- A unit variant gives the unit error. -/
+theorem not_enum_unit_variant (u : α → α) (d : α) (vs : List VKind) (v : Nat)
+    (hv : vs[v]? = some .unit) (l : List α) :
+    evalNot u d (notArms vs) (v, l) = some .err := by
+  have ha : (notArms vs)[v]? = some .unitErr := by simp [notArms, List.getElem?_map, hv]
+  simp [evalNot, ha]
+
+/-- The output type is `Result` exactly when a *unit* variant exists: field-less tuple / struct
+variants (`Empty()`, `Empty {}`) are variants with zero fields and are mapped like the others. -/
+theorem not_enum_result_iff_unit_variant (vs : List VKind) :
+    notHasUnit vs = true ↔ ∃ v : Nat, vs[v]? = some VKind.unit := by
+  simp only [notHasUnit, List.any_eq_true, decide_eq_true_eq]
+  constructor
+  · rintro ⟨k, hk, rfl⟩
+    obtain ⟨i, hi, h⟩ := List.getElem_of_mem hk
+    exact ⟨i, by simp [List.getElem?_eq_getElem hi, h]⟩
+  · rintro ⟨v, hv⟩
+    exact ⟨VKind.unit, List.mem_of_getElem? hv, rfl⟩
+
+/-- Non-vacuity: `enum E { Two(a, b), Empty(), Braces {} }` has no unit variant: `!E::Empty()` is
+`E::Empty()` itself; with a unit variant added the same value comes back as `Ok(..)`. -/
+example : evalNot (fun x : Nat => x + 1) 0 (notArms [.fields 2, .fields 0, .fields 0]) (1, []) = some (.plain (1, [])) := by decide
+example : evalNot (fun x : Nat => x + 1) 0 (notArms [.fields 2, .fields 0, .unit]) (0, [5, 6]) = some (.ok (0, [6, 7])) := by decide
+
 end Dm.Props.C10
